@@ -437,12 +437,43 @@ mod verif_replay_c16_schedule {
     return (res or {}).get("c16_schedule"), path
 
 
+def check_state_internal_unit(rep, ctx):
+    """what a query reads (get_provision_state_internal, named by the handler formula): on EVERY path the tick is the reply to
+    get_provision_finished of this query, the error text is the failed-state message computed by this query (never skipped or cached) and
+    the channel state is the key keeper's current one"""
+    try:
+        w = ctx.one("provision::get_provision_state_internal") + "::{closure#0}"
+    except Inconclusive as ex:
+        rep.add(Query("get_provision_state_internal located", "inconclusive", str(ex), 0, "mirsym", key="C16.state-internal"))
+        return
+    f = {n: ctx.field("ProvisionStateInternal", n) for n in ("finished_time_tick", "error_message", "key_keeper_secure_channel_state")}
+    eng = ctx.engine(loop_bound=1)
+    n = 0
+    for i, r in enumerate(eng.explore(w)):
+        if r.status != "return":
+            continue
+        n += 1
+        ev = r.events
+        st = r.ret
+        gf = [e for e in ev if e.kind == "await" and e.callee.endswith("get_provision_finished")]
+        fm = [e for e in ev if e.kind == "await" and e.callee.endswith("get_provision_failed_state_message")]
+        cs = [e for e in ev if e.kind == "await" and e.callee.endswith("get_current_secure_channel_state")]
+        ok = isinstance(st, Agg) and len(st.fields) >= 3 and len(fm) == 1 and same_origin(st.fields[f["error_message"]], fm[0].ret) and len(gf) == 1 and derives(st.fields[f["finished_time_tick"]], gf[0].ret, ev) and \
+            len(cs) == 1 and derives(st.fields[f["key_keeper_secure_channel_state"]], cs[0].ret, ev)
+        detail = "failed-state message computed %d time(s); error text field %r" % (len(fm), st.fields[f["error_message"]] if isinstance(st, Agg) and len(st.fields) > f["error_message"] else None)
+        rep.add(Query("get_provision_state_internal path %d: tick, error text and channel state are this query's own readings (the error text is computed on every path)" % i, "holds" if ok else "violated", detail[:200], 0, "mirsym",
+                      key="C16.state-internal", reproduced=None))
+    rep.functions_encoded.append(w)
+    rep.add(Query("witness: get_provision_state_internal explored", "witness-hit" if n else "witness-missed", "%d" % n, 0, "mirsym"))
+
+
 def check(rep, tier, seed):
     ctx = Ctx("agent")
     rep.extra["mir_dump"] = {"cache_hit": ctx.dump.cache_hit, "tree_hash": ctx.dump.hash, "seconds": round(ctx.dump.seconds, 1)}
     sem = actor_semantics(rep, ctx)
     seqs = task_sequences(rep, ctx)
     check_message(rep, ctx)
+    check_state_internal_unit(rep, ctx)
     check_status_file(rep, ctx)
     zero = check_query_formula(rep, ctx)
     schedule_search(rep, sem, seqs, tier)
